@@ -2,50 +2,11 @@
    (After the fixes of F8 -- a deleted topic still named as dead-letter topic by a live
    subscription is kept -- and F10 -- pruning a topic takes its snapshots with it.) *)
 From MB Require Import Base.
-From MB.Bus Require Import State Ops Step Defs T_Inv.
+From MB.Bus Require Import State Ops Step Defs View L_Tables L_Good L_Helpers L_Step T_Inv.
+From MB.Bus Require Import L15_Lists L15_Links L15_View.
 Local Open Scope string_scope.
 Open Scope list_scope.
 Open Scope Z_scope.
-
-Definition is_prune (j : job) : bool :=
-  match j with
-  | JPruneCompletedDeliveries | JPruneExpiredDeliveries | JPruneCompletedMessages
-  | JPruneDeletedSubDeliveries | JPruneDeletedSubs | JPruneDeletedTopics => true
-  | _ => false
-  end.
-
-(* ---- what clients can observe ---- *)
-(* an outstanding delivery as a client sees it: its ack id, message content, attempt
-   count, deadlines, and whether ordering currently holds it back *)
-Record odel := mkOdel {
-  o_id : id; o_sub : id; o_msg : option msg; o_attempts : Z; o_attempt_at : time; o_expires : time;
-  o_published : time; o_blocked : bool }.
-
-Definition view_del (st : state) (now : time) (d : del) : odel :=
-  mkOdel (d_id d) (d_sub d) (get_msg st (d_msg d)) (d_attempts d) (d_attempt_at d) (d_expires d) (d_published d)
-         (match get_sub st (d_sub d) with Some s => s_ordered s && pred_blocks st now d | None => false end).
-
-Record view := mkView {
-  v_topics : list topic;              (* live topics *)
-  v_subs : list sub;                  (* live subscriptions, full configuration *)
-  v_dltopic_names : list (id * str);  (* how each live subscription's dead-letter topic renders *)
-  v_topic_names : list (id * str);    (* how each live subscription's topic renders *)
-  v_snaps : list snap;                (* snapshots of live topics (DeleteTopic removes a topic's snapshots) *)
-  v_dels : list odel }.               (* outstanding deliveries *)
-
-Definition view_of (st : state) (now : time) : view :=
-  mkView (filter topic_live (topics st))
-         (filter sub_live (subs st))
-         (flat_map (fun s => match s_dl_topic s with
-                             | Some t => [(s_id s, render_topic_name st t)]
-                             | None => []
-                             end) (filter sub_live (subs st)))
-         (map (fun s => (s_id s, render_topic_name st (s_topic s))) (filter sub_live (subs st)))
-         (filter (fun n => match get_topic st (n_topic n) with
-                           | Some t => topic_live t
-                           | None => false
-                           end) (snaps st))
-         (map (view_del st now) (filter (outstanding st now) (dels st))).
 
 (* predecessor links stay within one subscription (deliverToSubscription only looks at
    deliveries of the same subscription): an invariant of every legal step *)
@@ -53,11 +14,128 @@ Definition links_same_sub (st : state) : Prop :=
   forall d p pd, In d (dels st) -> d_not_before d = Some p -> In pd (dels st) -> d_id pd = p -> d_sub pd = d_sub d.
 
 Theorem links_same_sub_empty : links_same_sub empty_state.
-Admitted.
+Proof. intros d p pd Hd. destruct Hd. Qed.
+
+Lemma dinv_of st : ids_unique st -> refs_ok st -> links_same_sub st -> dinv (dels st).
+Proof.
+  intros (_ & _ & _ & UD & _) (_ & _ & _ & _ & _ & _ & R7) LK.
+  split; [exact UD|]. split; [exact LK|].
+  intros d p Hd Hp. apply (has_id_in d_id). eapply R7; eauto.
+Qed.
 
 Theorem step_links_same_sub st now o :
-  ids_unique st -> legal st now o -> links_same_sub st -> links_same_sub (post st now o).
-Admitted.
+  ids_unique st -> refs_ok st -> legal st now o -> links_same_sub st -> links_same_sub (post st now o).
+Proof.
+  intros U R L LK.
+  destruct (step_dinv st now o L (dinv_of st U R LK)) as (_ & LK' & _). exact LK'.
+Qed.
+
+Theorem reachable_links_same_sub st : reachable st -> links_same_sub st.
+Proof.
+  intros [h [L ->]].
+  assert (G : forall h st0, ids_unique st0 /\ refs_ok st0 /\ links_same_sub st0 -> all_legal st0 h ->
+                            links_same_sub (run st0 h)).
+  { clear. induction h as [|[now o] h IH]; intros st0 (U & R & K) L; cbn [run]; [exact K|].
+    assert (L0 : legal st0 now o) by (apply L; cbn [trace]; left; reflexivity).
+    apply IH.
+    - split; [apply step_ids_unique; assumption|].
+      split; [apply step_refs_ok; assumption|apply step_links_same_sub; assumption].
+    - intros s now' o' Hi. apply L. cbn [trace]. right; exact Hi. }
+  apply G; [|exact L].
+  destruct empty_state_ok as [U R]. split; [exact U|]. split; [exact R|apply links_same_sub_empty].
+Qed.
+
+(* ---- what the jobs choose is dead ---- *)
+Section Chosen.
+  Variables (st : state) (now : time).
+  Hypothesis U : ids_unique st.
+
+  Let UT : NoDup (map t_id (topics st)). Proof. destruct U as (A & _); exact A. Qed.
+  Let US : NoDup (map s_id (subs st)). Proof. destruct U as (_ & A & _); exact A. Qed.
+  Let UD : NoDup (map d_id (dels st)). Proof. destruct U as (_ & _ & _ & A & _); exact A. Qed.
+
+  Lemma in_matches_row {R} (key : R -> id) (P : R -> bool) (l : list R) i :
+    In i (map key (filter P l)) -> exists r, In r l /\ key r = i /\ P r = true.
+  Proof.
+    intros Hi. apply in_map_iff in Hi. destruct Hi as [r [E Hr]]. apply filter_In in Hr.
+    destruct Hr as [Hr HP]. exists r. auto.
+  Qed.
+
+  Lemma chosen_del_dead j mn chosen d :
+    0 <= mn ->
+    (j = JPruneCompletedDeliveries \/ j = JPruneExpiredDeliveries \/ j = JPruneDeletedSubDeliveries) ->
+    (forall i, In i chosen -> In i (job_matches st j now mn)) ->
+    In d (dels st) -> In (d_id d) chosen -> outstanding st now d = false.
+  Proof.
+    intros Hmn Hj Hc Hd Hi. apply Hc in Hi. unfold outstanding.
+    destruct Hj as [->|[->| ->]]; cbn [job_matches] in Hi;
+      apply (matched_row d_id _ _ _ UD Hd) in Hi; cbv beta in Hi.
+    - destruct (d_completed d); [reflexivity|discriminate].
+    - apply Z.ltb_lt in Hi. assert (E : (now <? d_expires d) = false) by (apply Z.ltb_ge; lia).
+      rewrite E, andb_false_r. reflexivity.
+    - destruct (get_sub st (d_sub d)) as [s|]; [|discriminate].
+      unfold sub_live, is_none, is_some. destruct (s_deleted s); [|discriminate].
+      cbn. apply andb_false_r.
+  Qed.
+
+  Lemma chosen_msg_unused mn chosen d :
+    (forall i, In i chosen -> In i (job_matches st JPruneCompletedMessages now mn)) ->
+    In d (dels st) -> ~ In (d_msg d) chosen.
+  Proof.
+    intros Hc Hd Hi. apply Hc in Hi. cbn [job_matches] in Hi.
+    apply in_matches_row in Hi. destruct Hi as (m & _ & Em & P).
+    apply andb_true_iff in P. destruct P as [_ P]. apply negb_true_iff in P.
+    eapply existsb_false_all in P; [|exact Hd]. cbv beta in P.
+    rewrite Em, N.eqb_refl in P. discriminate.
+  Qed.
+
+  Lemma chosen_sub_deleted mn chosen s :
+    (forall i, In i chosen -> In i (job_matches st JPruneDeletedSubs now mn)) ->
+    In s (subs st) -> In (s_id s) chosen -> sub_live s = false.
+  Proof.
+    intros Hc Hs Hi. apply Hc in Hi. cbn [job_matches] in Hi.
+    apply (matched_row s_id _ _ _ US Hs) in Hi. cbv beta in Hi.
+    unfold sub_live, is_none, is_some. destruct (s_deleted s); [reflexivity|discriminate].
+  Qed.
+
+  Lemma chosen_topic_facts mn chosen i :
+    (forall i, In i chosen -> In i (job_matches st JPruneDeletedTopics now mn)) ->
+    In i chosen ->
+    (forall t, In t (topics st) -> t_id t = i -> topic_live t = false) /\
+    (forall s, In s (subs st) -> s_topic s <> i) /\
+    (forall s, In s (subs st) -> sub_live s = true -> s_dl_topic s <> Some i).
+  Proof.
+    intros Hc Hi. apply Hc in Hi. cbn [job_matches] in Hi. split; [|split].
+    - intros t Ht E. subst i. apply (matched_row t_id _ _ _ UT Ht) in Hi. cbv beta in Hi.
+      unfold topic_live, is_none, is_some. destruct (t_deleted t); [reflexivity|discriminate].
+    - intros s Hs E. apply in_matches_row in Hi. destruct Hi as (t & _ & Et & P).
+      destruct (t_deleted t); [|discriminate].
+      apply andb_true_iff in P. destruct P as [P _]. apply andb_true_iff in P. destruct P as [_ P].
+      apply negb_true_iff in P. eapply existsb_false_all in P; [|exact Hs]. cbv beta in P.
+      rewrite E, Et, N.eqb_refl in P. discriminate.
+    - intros s Hs Hl E. apply in_matches_row in Hi. destruct Hi as (t & _ & Et & P).
+      destruct (t_deleted t); [|discriminate].
+      apply andb_true_iff in P. destruct P as [_ P].
+      apply negb_true_iff in P. eapply existsb_false_all in P; [|exact Hs]. cbv beta in P.
+      rewrite Hl, E, Et in P. cbn in P. rewrite N.eqb_refl in P. discriminate.
+  Qed.
+End Chosen.
+
+(* the row transformation PruneDeletedTopics applies to subscriptions (ON DELETE SET NULL) *)
+Definition null_dl (chosen : list id) (s : sub) : sub :=
+  match s_dl_topic s with
+  | Some t => if mem_id t chosen
+              then mkSub (s_id s) (s_name s) (s_topic s) (s_deleted s) (s_expires s) (s_ttl s) (s_msg_ttl s)
+                         (s_ordered s) (s_filter s) (s_minb s) (s_maxb s) (s_max_attempts s) None (s_delay s)
+                         (s_push s) (s_labels s)
+              else s
+  | None => s
+  end.
+
+Lemma null_dl_id ch s : s_id (null_dl ch s) = s_id s.
+Proof. unfold null_dl. destruct (s_dl_topic s) as [t|]; [|reflexivity]. destruct (mem_id t ch); reflexivity. Qed.
+Lemma null_dl_live ch s : sub_live (null_dl ch s) = sub_live s.
+Proof. unfold null_dl. destruct (s_dl_topic s) as [t|]; [|reflexivity]. destruct (mem_id t ch); reflexivity. Qed.
 
 (* ---- invisibility ---- *)
 (* Running any prune job, with any age >= 0, any batch size and any legal choice of rows,
@@ -67,58 +145,311 @@ Admitted.
    holds back stays held back. *)
 Theorem prune_invisible st now j mn mx chosen w fr :
   is_prune j = true -> 0 <= mn ->
-  ids_unique st -> refs_ok st -> links_same_sub st ->
+  ids_unique st -> links_same_sub st ->
   legal st now (Job j mn mx chosen false w fr) ->
   view_of (post st now (Job j mn mx chosen false w fr)) now = view_of st now.
-Admitted.
+Proof.
+  intros Hj Hmn U LK. unfold legal, post. cbv beta iota delta [step]. unfold run_job. cbv zeta.
+  cbv beta iota.
+  assert (UT : NoDup (map t_id (topics st))) by (destruct U as (A & _); exact A).
+  assert (US : NoDup (map s_id (subs st))) by (destruct U as (_ & A & _); exact A).
+  assert (UD : NoDup (map d_id (dels st))) by (destruct U as (_ & _ & _ & A & _); exact A).
+  destruct j; try discriminate Hj; cbn [done r_notes r_state]; intros HL.
+  - (* JPruneCompletedDeliveries *)
+    destruct (choice_legal _ chosen mx) eqn:Ech in HL; [|discriminate].
+    apply view_ext; try reflexivity.
+    apply view_dels_prune; [exact UD|exact LK|].
+    intros d Hd Hi. apply (chosen_del_dead st now U JPruneCompletedDeliveries mn chosen d Hmn); auto.
+    apply (choice_legal_incl _ _ _ Ech).
+  - (* JPruneExpiredDeliveries *)
+    destruct (choice_legal _ chosen mx) eqn:Ech in HL; [|discriminate].
+    apply view_ext; try reflexivity.
+    apply view_dels_prune; [exact UD|exact LK|].
+    intros d Hd Hi. apply (chosen_del_dead st now U JPruneExpiredDeliveries mn chosen d Hmn); auto.
+    apply (choice_legal_incl _ _ _ Ech).
+  - (* JPruneCompletedMessages *)
+    destruct (choice_legal _ chosen mx) eqn:Ech in HL; [|discriminate].
+    apply view_ext; try reflexivity.
+    apply view_dels_same_dels; [reflexivity|reflexivity|].
+    intros d Hd _. split; [reflexivity|].
+    unfold get_msg. cbn [set_msgs msgs]. apply find_id_del_ids_out.
+    eapply chosen_msg_unused; [|exact Hd]. apply (choice_legal_incl _ _ _ Ech).
+  - (* JPruneDeletedSubDeliveries *)
+    destruct (choice_legal _ chosen mx) eqn:Ech in HL; [|discriminate].
+    apply view_ext; try reflexivity.
+    apply view_dels_prune; [exact UD|exact LK|].
+    intros d Hd Hi. apply (chosen_del_dead st now U JPruneDeletedSubDeliveries mn chosen d Hmn); auto.
+    apply (choice_legal_incl _ _ _ Ech).
+  - (* JPruneDeletedSubs *)
+    destruct (choice_legal _ chosen mx) eqn:Ech in HL; [|discriminate].
+    pose proof (choice_legal_incl _ _ _ Ech) as Hc.
+    assert (Hg : forall i, get_sub (set_subs st (del_ids s_id chosen (subs st))) i =
+                           if mem_id i chosen then None else get_sub st i).
+    { intros i. unfold get_sub. cbn [set_subs subs]. destruct (mem_id i chosen) eqn:M.
+      - apply find_id_del_ids_in. apply mem_id_In. exact M.
+      - apply find_id_del_ids_out. apply mem_id_false. exact M. }
+    apply view_ext; try reflexivity.
+    + cbn [set_subs subs]. apply filter_del_ids. intros s Hs Hi.
+      eapply chosen_sub_deleted; eauto.
+    + apply view_dels_same_dels; [reflexivity| |].
+      * intros d Hd. unfold outstanding. rewrite Hg.
+        destruct (mem_id (d_sub d) chosen) eqn:M; [|reflexivity].
+        destruct (get_sub st (d_sub d)) as [s|] eqn:Es; [|reflexivity].
+        apply get_sub_in in Es. destruct Es as [Hs Eid].
+        apply mem_id_In in M. rewrite <- Eid in M.
+        rewrite (chosen_sub_deleted st now U mn chosen s Hc Hs M). reflexivity.
+      * intros d Hd Ho. split; [|reflexivity]. rewrite Hg.
+        destruct (mem_id (d_sub d) chosen) eqn:M; [|reflexivity].
+        exfalso. unfold outstanding in Ho.
+        destruct (get_sub st (d_sub d)) as [s|] eqn:Es; [|rewrite andb_false_r in Ho; discriminate].
+        apply get_sub_in in Es. destruct Es as [Hs Eid].
+        apply mem_id_In in M. rewrite <- Eid in M.
+        rewrite (chosen_sub_deleted st now U mn chosen s Hc Hs M), andb_false_r in Ho. discriminate.
+  - (* JPruneDeletedTopics *)
+    destruct (existsb (topic_has_messages st) chosen) eqn:HM; cbn [done r_notes r_state] in *; [reflexivity|].
+    destruct (choice_legal _ chosen mx) eqn:Ech in HL; [|discriminate].
+    pose proof (choice_legal_incl _ _ _ Ech) as Hc.
+    change (map _ (subs st)) with (map (null_dl chosen) (subs st)).
+    set (st' := set_snaps _ _).
+    assert (Hlive : forall s, In s (subs st) -> sub_live s = true -> null_dl chosen s = s).
+    { intros s Hs Hl. unfold null_dl. destruct (s_dl_topic s) as [t|] eqn:E; [|reflexivity].
+      destruct (mem_id t chosen) eqn:M; [|reflexivity]. exfalso. apply mem_id_In in M.
+      destruct (chosen_topic_facts st now U mn chosen t Hc M) as (_ & _ & F). eapply F; eauto. }
+    assert (Hgt : forall i, ~ In i chosen -> get_topic st' i = get_topic st i).
+    { intros i Hi. unfold get_topic. cbn [st' set_snaps set_topics set_subs topics].
+      apply find_id_del_ids_out. exact Hi. }
+    assert (Hgs : forall i, get_sub st' i = option_map (null_dl chosen) (get_sub st i)).
+    { intros i. unfold get_sub. cbn [st' set_snaps set_topics set_subs subs].
+      apply find_id_map15. intros; apply null_dl_id. }
+    apply view_ext.
+    + cbn [st' set_snaps set_topics set_subs topics]. apply filter_del_ids. intros t Ht Hi.
+      destruct (chosen_topic_facts st now U mn chosen (t_id t) Hc Hi) as (F & _). apply F; auto.
+    + cbn [st' set_snaps set_topics set_subs subs]. apply filter_map_id.
+      * intros r _. apply null_dl_live.
+      * exact Hlive.
+    + intros s t Hs Hl E. apply Hgt. intros Hi.
+      destruct (chosen_topic_facts st now U mn chosen t Hc Hi) as (_ & _ & F). eapply F; eauto.
+    + intros s Hs Hl. apply Hgt. intros Hi.
+      destruct (chosen_topic_facts st now U mn chosen (s_topic s) Hc Hi) as (_ & F & _). eapply F; eauto.
+    + cbn [st' set_snaps set_topics set_subs snaps]. fold st'. apply filter_filter_eq.
+      intros n Hn. unfold snap_visible. destruct (mem_id (n_topic n) chosen) eqn:M; cbn [negb andb].
+      * apply mem_id_In in M.
+        destruct (get_topic st (n_topic n)) as [t|] eqn:Et; [|reflexivity].
+        apply get_topic_in in Et. destruct Et as [Ht Eid].
+        destruct (chosen_topic_facts st now U mn chosen (n_topic n) Hc M) as (F & _). apply F; auto.
+      * apply mem_id_false in M. rewrite (Hgt _ M). reflexivity.
+    + apply view_dels_same_dels; [reflexivity| |].
+      * intros d Hd. unfold outstanding. rewrite Hgs.
+        destruct (get_sub st (d_sub d)) as [s|]; cbn [option_map]; [|reflexivity].
+        rewrite null_dl_live. reflexivity.
+      * intros d Hd Ho. split; [|reflexivity]. rewrite Hgs.
+        unfold outstanding in Ho.
+        destruct (get_sub st (d_sub d)) as [s|] eqn:Es; cbn [option_map]; [|reflexivity].
+        apply andb_true_iff in Ho. destruct Ho as [_ Hl].
+        apply get_sub_in in Es. destruct Es as [Hs _]. rewrite (Hlive s Hs Hl). reflexivity.
+Qed.
 
 (* a failed job changes nothing at all *)
 Theorem failed_job_invisible st now j mn mx chosen w fr :
   post st now (Job j mn mx chosen true w fr) = st.
-Admitted.
+Proof. unfold post. cbn [step]. unfold run_job. destruct j; reflexivity. Qed.
 
-(* what the jobs remove is dead: completed (long enough ago) or expired deliveries,
-   deliveries of deleted subscriptions, messages no delivery refers to, soft-deleted
-   subscriptions without deliveries, soft-deleted topics without subscriptions *)
+(* what the jobs remove is dead: an outstanding delivery is never removed *)
 Theorem prune_removes_only_dead st now j mn mx chosen w fr d :
   is_prune j = true -> 0 <= mn -> ids_unique st ->
   legal st now (Job j mn mx chosen false w fr) ->
   In d (dels st) -> ~ has_id d_id (d_id d) (dels (post st now (Job j mn mx chosen false w fr))) = true ->
   outstanding st now d = false.
-Admitted.
+Proof.
+  intros Hj Hmn U. unfold legal, post. cbv beta iota delta [step]. unfold run_job. cbv zeta. cbv beta iota.
+  assert (Keep : forall ch, ~ In (d_id d) ch -> In d (dels st) ->
+            has_id d_id (d_id d) (map (d_null_link ch) (del_ids d_id ch (dels st))) = true).
+  { intros ch Hn Hd. apply (has_id_in d_id). rewrite map_key_map by (intros; apply d_null_link_id).
+    apply in_map_del_ids. split; [apply in_map; exact Hd|exact Hn]. }
+  assert (Same : In d (dels st) -> has_id d_id (d_id d) (dels st) = true).
+  { intros Hd. apply (has_id_in d_id). apply in_map. exact Hd. }
+  destruct j; try discriminate Hj; cbn [done r_notes r_state]; intros HL Hd Hno.
+  - destruct (choice_legal _ chosen mx) eqn:Ech in HL; [|discriminate].
+    destruct (outstanding st now d) eqn:Ho; [|reflexivity]. exfalso. apply Hno. cbn [set_dels dels].
+    apply Keep; [|exact Hd]. intros Hi.
+    rewrite (chosen_del_dead st now U JPruneCompletedDeliveries mn chosen d Hmn) in Ho; auto.
+    discriminate. apply (choice_legal_incl _ _ _ Ech).
+  - destruct (choice_legal _ chosen mx) eqn:Ech in HL; [|discriminate].
+    destruct (outstanding st now d) eqn:Ho; [|reflexivity]. exfalso. apply Hno. cbn [set_dels dels].
+    apply Keep; [|exact Hd]. intros Hi.
+    rewrite (chosen_del_dead st now U JPruneExpiredDeliveries mn chosen d Hmn) in Ho; auto.
+    discriminate. apply (choice_legal_incl _ _ _ Ech).
+  - exfalso. apply Hno. cbn [set_msgs dels]. auto.
+  - destruct (choice_legal _ chosen mx) eqn:Ech in HL; [|discriminate].
+    destruct (outstanding st now d) eqn:Ho; [|reflexivity]. exfalso. apply Hno. cbn [set_dels dels].
+    apply Keep; [|exact Hd]. intros Hi.
+    rewrite (chosen_del_dead st now U JPruneDeletedSubDeliveries mn chosen d Hmn) in Ho; auto.
+    discriminate. apply (choice_legal_incl _ _ _ Ech).
+  - exfalso. apply Hno. cbn [set_subs dels]. auto.
+  - exfalso. apply Hno.
+    destruct (existsb (topic_has_messages st) chosen); cbn [done r_state set_snaps set_topics set_subs dels]; auto.
+Qed.
 
 (* ---- convergence ---- *)
-(* the dead rows of a state (what the jobs are meant to reclaim), for age threshold a *)
-Definition dead_dels (st : state) (now a : Z) : list del :=
-  filter (fun d => (match d_completed d with Some c => c <=? now - a | None => false end) ||
-                   (d_expires d <? now) ||
-                   (match get_sub st (d_sub d) with
-                    | Some s => match s_deleted s with Some t => t <=? now - a | None => false end
-                    | None => false
-                    end)) (dels st).
+(* the dead delivery rows of a state (what the delivery jobs are meant to reclaim), for age
+   threshold a: completed at least a ago, expired, or of a subscription deleted at least a ago *)
+Definition del_dead (st : state) (now a : Z) (d : del) : bool :=
+  (match d_completed d with Some c => c <=? now - a | None => false end) ||
+  (d_expires d <? now) ||
+  (match get_sub st (d_sub d) with
+   | Some s => match s_deleted s with Some t => t <=? now - a | None => false end
+   | None => false
+   end).
+Definition dead_dels (st : state) (now a : Z) : list del := filter (del_dead st now a) (dels st).
 
-(* progress: a job whose matching set is non-empty and whose batch size is positive,
-   run with a legal choice, removes at least one row (or, for the one job that can fail,
-   fails only because some matching topic still has messages, which
-   PruneCompletedMessages reclaims once their deliveries are gone) *)
+Definition size (st : state) : nat :=
+  (length (dels st) + length (msgs st) + length (subs st) + length (topics st))%nat.
+
+Lemma choice_nonempty matching chosen mx :
+  choice_legal matching chosen mx = true -> 1 <= mx -> matching <> [] -> exists i, In i chosen /\ In i matching.
+Proof.
+  intros Hc Hmx Hne. pose proof (choice_legal_incl _ _ _ Hc) as Hin.
+  unfold choice_legal in Hc. apply andb_true_iff in Hc. destruct Hc as [_ Hl]. apply Z.eqb_eq in Hl.
+  destruct chosen as [|i r].
+  - exfalso. destruct matching; [congruence|]. cbn [length] in Hl. lia.
+  - exists i. split; [left; reflexivity|apply Hin; left; reflexivity].
+Qed.
+
+Lemma length_prune_dels ch D : length (map (d_null_link ch) (del_ids d_id ch D)) = length (del_ids d_id ch D).
+Proof. apply map_length. Qed.
+
+(* progress: a job whose matching set is non-empty and whose batch size is positive, run
+   with a legal choice, removes at least one row of its table *)
 Theorem prune_progress st now j mn mx chosen w fr :
   is_prune j = true -> 1 <= mx ->
   legal st now (Job j mn mx chosen false w fr) ->
   job_matches st j now mn <> [] ->
-  chosen <> [] /\
-  (match j with
-   | JPruneCompletedDeliveries | JPruneExpiredDeliveries | JPruneDeletedSubDeliveries =>
-       (length (dels (post st now (Job j mn mx chosen false w fr))) < length (dels st))%nat
-   | JPruneCompletedMessages =>
-       (length (msgs (post st now (Job j mn mx chosen false w fr))) < length (msgs st))%nat
-   | JPruneDeletedSubs =>
-       (length (subs (post st now (Job j mn mx chosen false w fr))) < length (subs st))%nat
-   | JPruneDeletedTopics =>
-       answer st now (Job j mn mx chosen false w fr) = RErr Unknown \/
-       (length (topics (post st now (Job j mn mx chosen false w fr))) < length (topics st))%nat
-   | _ => True
-   end).
-Admitted.
+  match j with
+  | JPruneCompletedDeliveries | JPruneExpiredDeliveries | JPruneDeletedSubDeliveries =>
+      (length (dels (post st now (Job j mn mx chosen false w fr))) < length (dels st))%nat
+  | JPruneCompletedMessages =>
+      (length (msgs (post st now (Job j mn mx chosen false w fr))) < length (msgs st))%nat
+  | JPruneDeletedSubs =>
+      (length (subs (post st now (Job j mn mx chosen false w fr))) < length (subs st))%nat
+  | JPruneDeletedTopics =>
+      (length (topics (post st now (Job j mn mx chosen false w fr))) < length (topics st))%nat
+  | _ => True
+  end.
+Proof.
+  intros Hj Hmx. unfold legal, post. cbv beta iota delta [step]. unfold run_job. cbv zeta. cbv beta iota.
+  destruct j; try discriminate Hj; cbn [done r_notes r_state]; intros HL Hne.
+  - destruct (choice_legal _ chosen mx) eqn:Ech in HL; [|discriminate].
+    destruct (choice_nonempty _ _ _ Ech Hmx Hne) as (i & Hi & Hm). cbn [job_matches] in Hm.
+    apply in_matches_row in Hm. destruct Hm as (r & Hr & Er & _).
+    cbn [set_dels dels]. rewrite length_prune_dels. eapply length_del_ids_lt; [exact Hr|rewrite Er; exact Hi].
+  - destruct (choice_legal _ chosen mx) eqn:Ech in HL; [|discriminate].
+    destruct (choice_nonempty _ _ _ Ech Hmx Hne) as (i & Hi & Hm). cbn [job_matches] in Hm.
+    apply in_matches_row in Hm. destruct Hm as (r & Hr & Er & _).
+    cbn [set_dels dels]. rewrite length_prune_dels. eapply length_del_ids_lt; [exact Hr|rewrite Er; exact Hi].
+  - destruct (choice_legal _ chosen mx) eqn:Ech in HL; [|discriminate].
+    destruct (choice_nonempty _ _ _ Ech Hmx Hne) as (i & Hi & Hm). cbn [job_matches] in Hm.
+    apply in_matches_row in Hm. destruct Hm as (r & Hr & Er & _).
+    cbn [set_msgs msgs]. eapply length_del_ids_lt; [exact Hr|rewrite Er; exact Hi].
+  - destruct (choice_legal _ chosen mx) eqn:Ech in HL; [|discriminate].
+    destruct (choice_nonempty _ _ _ Ech Hmx Hne) as (i & Hi & Hm). cbn [job_matches] in Hm.
+    apply in_matches_row in Hm. destruct Hm as (r & Hr & Er & _).
+    cbn [set_dels dels]. rewrite length_prune_dels. eapply length_del_ids_lt; [exact Hr|rewrite Er; exact Hi].
+  - destruct (choice_legal _ chosen mx) eqn:Ech in HL; [|discriminate].
+    destruct (choice_nonempty _ _ _ Ech Hmx Hne) as (i & Hi & Hm). cbn [job_matches] in Hm.
+    apply in_matches_row in Hm. destruct Hm as (r & Hr & Er & _).
+    cbn [set_subs subs]. eapply length_del_ids_lt; [exact Hr|rewrite Er; exact Hi].
+  - destruct (existsb (topic_has_messages st) chosen) eqn:HM; cbn [done r_notes r_state] in *; [discriminate|].
+    destruct (choice_legal _ chosen mx) eqn:Ech in HL; [|discriminate].
+    destruct (choice_nonempty _ _ _ Ech Hmx Hne) as (i & Hi & Hm). cbn [job_matches] in Hm.
+    apply in_matches_row in Hm. destruct Hm as (r & Hr & Er & _).
+    cbn [set_snaps set_topics set_subs topics]. eapply length_del_ids_lt; [exact Hr|rewrite Er; exact Hi].
+Qed.
+
+(* no prune job ever adds a row *)
+Theorem prune_never_grows st now j mn mx chosen failed w fr :
+  is_prune j = true ->
+  (length (dels (post st now (Job j mn mx chosen failed w fr))) <= length (dels st))%nat /\
+  (length (msgs (post st now (Job j mn mx chosen failed w fr))) <= length (msgs st))%nat /\
+  (length (subs (post st now (Job j mn mx chosen failed w fr))) <= length (subs st))%nat /\
+  (length (topics (post st now (Job j mn mx chosen failed w fr))) <= length (topics st))%nat.
+Proof.
+  intros Hj. destruct failed; [rewrite failed_job_invisible; lia|].
+  unfold post. cbv beta iota delta [step]. unfold run_job. cbv zeta. cbv beta iota.
+  destruct j; try discriminate Hj; cbn [done r_state set_dels set_msgs set_subs dels msgs subs topics].
+  - rewrite length_prune_dels. pose proof (length_del_ids_le d_id chosen (dels st)). lia.
+  - rewrite length_prune_dels. pose proof (length_del_ids_le d_id chosen (dels st)). lia.
+  - pose proof (length_del_ids_le m_id chosen (msgs st)). lia.
+  - rewrite length_prune_dels. pose proof (length_del_ids_le d_id chosen (dels st)). lia.
+  - pose proof (length_del_ids_le s_id chosen (subs st)). lia.
+  - destruct (existsb (topic_has_messages st) chosen);
+      cbn [done r_state set_snaps set_topics set_subs dels msgs subs topics]; [lia|].
+    rewrite map_length. pose proof (length_del_ids_le t_id chosen (topics st)). lia.
+Qed.
+
+(* hence any sequence of prune jobs, with any ages, batch sizes and choices, makes at most
+   [size st] effective runs (runs that found something to do and committed): the rounds
+   converge *)
+Definition is_prune_op (o : op) : bool :=
+  match o with Job j _ _ _ _ _ _ => is_prune j | _ => false end.
+Definition effective (st : state) (now : time) (o : op) : bool :=
+  match o with
+  | Job j mn mx _ false _ _ => (1 <=? mx) && match job_matches st j now mn with [] => false | _ => true end
+  | _ => false
+  end.
+Fixpoint effective_runs (st : state) (h : hist) : nat :=
+  match h with
+  | [] => 0%nat
+  | (now, o) :: r => ((if effective st now o then 1 else 0) + effective_runs (post st now o) r)%nat
+  end.
+
+Theorem prune_rounds_bounded h : forall st,
+  all_legal st h -> (forall now o, In (now, o) h -> is_prune_op o = true) ->
+  (effective_runs st h + size (run st h) <= size st)%nat.
+Proof.
+  induction h as [|[now o] h IH]; intros st L P; cbn [effective_runs run]; [lia|].
+  assert (L0 : legal st now o) by (apply L; cbn [trace]; left; reflexivity).
+  assert (P0 : is_prune_op o = true) by (apply (P now); left; reflexivity).
+  assert (IH' : (effective_runs (post st now o) h + size (run (post st now o) h) <= size (post st now o))%nat).
+  { apply IH.
+    - intros s now' o' Hi. apply L. cbn [trace]. right; exact Hi.
+    - intros now' o' Hi. apply (P now'). right; exact Hi. }
+  destruct o; try discriminate P0. cbn [is_prune_op] in P0.
+  pose proof (prune_never_grows st now j min_age max chosen failed wnow fr P0) as (G1 & G2 & G3 & G4).
+  unfold size in *.
+  destruct (effective st now (Job j min_age max chosen failed wnow fr)) eqn:E; [|lia].
+  cbn [effective] in E. destruct failed; [discriminate|].
+  apply andb_true_iff in E. destruct E as [E1 E2]. apply Z.leb_le in E1.
+  assert (Hne : job_matches st j now min_age <> []) by (destruct (job_matches st j now min_age); congruence).
+  pose proof (prune_progress st now j min_age max chosen wnow fr P0 E1 L0 Hne) as PR.
+  destruct j; try discriminate P0; lia.
+Qed.
+
+(* the only job that can fail is PruneDeletedTopics, and only because some matching topic
+   still has messages (foreign key); it cannot fail on topics without messages *)
+Theorem job_failure_cause st now j mn mx chosen w fr :
+  legal st now (Job j mn mx chosen true w fr) ->
+  j = JPruneDeletedTopics /\ 1 <= mx /\
+  exists i, In i (job_matches st JPruneDeletedTopics now mn) /\ topic_has_messages st i = true.
+Proof.
+  unfold legal. cbv beta iota delta [step]. unfold run_job. cbv zeta. cbv beta iota.
+  destruct j; cbn [r_notes]; try discriminate.
+  destruct (0 <? mx) eqn:E; cbn [andb]; [|discriminate].
+  destruct (existsb (topic_has_messages st) (job_matches st JPruneDeletedTopics now mn)) eqn:X; [|discriminate].
+  intros _. split; [reflexivity|]. split; [apply Z.ltb_lt in E; lia|].
+  apply existsb_exists in X. exact X.
+Qed.
+
+Theorem topic_prune_commits st now mn mx chosen w fr :
+  legal st now (Job JPruneDeletedTopics mn mx chosen false w fr) ->
+  answer st now (Job JPruneDeletedTopics mn mx chosen false w fr) = RCount (Z.of_nat (length chosen)) /\
+  forall i m, In i chosen -> In m (msgs st) -> m_topic m <> i.
+Proof.
+  unfold legal, answer. cbv beta iota delta [step]. unfold run_job. cbv zeta. cbv beta iota.
+  destruct (existsb (topic_has_messages st) chosen) eqn:HM; cbn [done r_notes r_resp]; [discriminate|].
+  intros _. split; [reflexivity|]. intros i m Hi Hm E.
+  eapply existsb_false_all in HM; [|exact Hi]. unfold topic_has_messages in HM.
+  eapply existsb_false_all in HM; [|exact Hm]. cbv beta in HM. rewrite E, N.eqb_refl in HM. discriminate.
+Qed.
 
 (* the jobs enable one another in dependency order, so nothing stays stuck: *)
 (* once no delivery refers to it, an old enough message is matched *)
@@ -126,48 +457,227 @@ Theorem messages_become_prunable st now mn m :
   In m (msgs st) -> m_published m <= now - mn ->
   (forall d, In d (dels st) -> d_msg d <> m_id m) ->
   In (m_id m) (job_matches st JPruneCompletedMessages now mn).
-Admitted.
+Proof.
+  intros Hm Hp Hn. cbn [job_matches]. apply in_map. apply filter_In. split; [exact Hm|].
+  apply andb_true_iff. split; [apply Z.leb_le; exact Hp|]. apply negb_true_iff.
+  apply existsb_false_intro. intros d Hd. apply N.eqb_neq. apply Hn. exact Hd.
+Qed.
 
 (* once it has no deliveries, an old enough deleted subscription is matched *)
 Theorem subs_become_prunable st now mn s t :
   In s (subs st) -> s_deleted s = Some t -> t <= now - mn ->
   (forall d, In d (dels st) -> d_sub d <> s_id s) ->
   In (s_id s) (job_matches st JPruneDeletedSubs now mn).
-Admitted.
+Proof.
+  intros Hs Hd Ht Hn. cbn [job_matches]. apply in_map. apply filter_In. split; [exact Hs|].
+  rewrite Hd. apply andb_true_iff. split; [apply Z.leb_le; exact Ht|]. apply negb_true_iff.
+  apply existsb_false_intro. intros d Hdd. apply N.eqb_neq. apply Hn. exact Hdd.
+Qed.
 
 (* once it has no subscriptions (and no live subscription names it as dead-letter topic),
-   an old enough deleted topic is matched; and when it has no messages either the job
-   cannot fail on it *)
+   an old enough deleted topic is matched *)
 Theorem topics_become_prunable st now mn t dt :
   In t (topics st) -> t_deleted t = Some dt -> dt <= now - mn ->
   (forall s, In s (subs st) -> s_topic s <> t_id t) ->
   (forall s, In s (subs st) -> sub_live s = true -> s_dl_topic s <> Some (t_id t)) ->
   In (t_id t) (job_matches st JPruneDeletedTopics now mn).
-Admitted.
-
-Theorem topic_prune_cannot_fail st now mn mx chosen w fr :
-  legal st now (Job JPruneDeletedTopics mn mx chosen false w fr) ->
-  (forall i, In i chosen -> forall m, In m (msgs st) -> m_topic m <> i) ->
-  exists n, answer st now (Job JPruneDeletedTopics mn mx chosen false w fr) = RCount n.
-Admitted.
+Proof.
+  intros Ht Hd Hdt Hn1 Hn2. cbn [job_matches]. apply in_map. apply filter_In. split; [exact Ht|].
+  rewrite Hd. apply andb_true_iff. split; [apply andb_true_iff; split|].
+  - apply Z.leb_le; exact Hdt.
+  - apply negb_true_iff. apply existsb_false_intro. intros s Hs. apply N.eqb_neq. apply Hn1. exact Hs.
+  - apply negb_true_iff. apply existsb_false_intro. intros s Hs.
+    destruct (sub_live s) eqn:Hl; [|reflexivity]. cbn [andb].
+    destruct (s_dl_topic s) as [x|] eqn:E; [|reflexivity]. cbn. apply N.eqb_neq. intros ->.
+    eapply Hn2; eauto.
+Qed.
 
 (* every dead delivery is matched by one of the three delivery jobs *)
 Theorem dead_deliveries_matched st now a d :
-  0 <= a -> In d (dead_dels st now a) ->
+  In d (dead_dels st now a) ->
   In (d_id d) (job_matches st JPruneCompletedDeliveries now a) \/
   In (d_id d) (job_matches st JPruneExpiredDeliveries now a) \/
   In (d_id d) (job_matches st JPruneDeletedSubDeliveries now a).
-Admitted.
+Proof.
+  intros Hd. apply filter_In in Hd. destruct Hd as [Hd P]. unfold del_dead in P.
+  apply orb_true_iff in P. destruct P as [P|P]; [apply orb_true_iff in P; destruct P as [P|P]|].
+  - left. cbn [job_matches]. apply in_map. apply filter_In. auto.
+  - right; left. cbn [job_matches]. apply in_map. apply filter_In. auto.
+  - right; right. cbn [job_matches]. apply in_map. apply filter_In. auto.
+Qed.
 
-(* a canonical full round (each job run with an unbounded batch, choosing everything it
-   matches, in dependency order) leaves no dead delivery behind *)
+(* nothing dead is left behind: in a state in which none of the six jobs finds anything
+   (for age a), there is no dead delivery, every old message still has a delivery (which
+   is then not dead), no subscription deleted at least a ago remains, and every remaining
+   topic deleted at least a ago is still referred to by a subscription row *)
+Theorem fixpoint_clean st now a :
+  ids_unique st ->
+  (forall j, is_prune j = true -> job_matches st j now a = []) ->
+  dead_dels st now a = [] /\
+  (forall m, In m (msgs st) -> m_published m <= now - a -> exists d, In d (dels st) /\ d_msg d = m_id m) /\
+  (forall s t, In s (subs st) -> s_deleted s = Some t -> ~ t <= now - a) /\
+  (forall t dt, In t (topics st) -> t_deleted t = Some dt -> dt <= now - a ->
+                exists s, In s (subs st) /\ (s_topic s = t_id t \/ (sub_live s = true /\ s_dl_topic s = Some (t_id t)))).
+Proof.
+  intros U F.
+  assert (US : NoDup (map s_id (subs st))) by (destruct U as (_ & A & _); exact A).
+  assert (D0 : dead_dels st now a = []).
+  { destruct (dead_dels st now a) as [|d r] eqn:E; [reflexivity|]. exfalso.
+    assert (Hd : In d (dead_dels st now a)) by (rewrite E; left; reflexivity).
+    apply dead_deliveries_matched in Hd.
+    destruct Hd as [H|[H|H]]; rewrite F in H by reflexivity; destruct H. }
+  split; [exact D0|]. split; [|split].
+  - intros m Hm Hp.
+    destruct (existsb (fun d => N.eqb (d_msg d) (m_id m)) (dels st)) eqn:X.
+    + apply existsb_exists in X. destruct X as (d & Hd & E). apply N.eqb_eq in E. eauto.
+    + exfalso. assert (H : In (m_id m) (job_matches st JPruneCompletedMessages now a)).
+      { apply messages_become_prunable; auto. intros d Hd E.
+        eapply existsb_false_all in X; [|exact Hd]. cbv beta in X. rewrite E, N.eqb_refl in X. discriminate. }
+      rewrite F in H by reflexivity. destruct H.
+  - intros s t Hs Hd Ht.
+    destruct (existsb (fun d => N.eqb (d_sub d) (s_id s)) (dels st)) eqn:X.
+    + apply existsb_exists in X. destruct X as (d & Hdd & E). apply N.eqb_eq in E.
+      assert (Hin : In d (dead_dels st now a)).
+      { apply filter_In. split; [exact Hdd|]. unfold del_dead.
+        assert (G : get_sub st (d_sub d) = Some s).
+        { unfold get_sub. rewrite E. apply (find_id_in_nodup s_id); assumption. }
+        rewrite G, Hd. apply orb_true_iff. right. apply Z.leb_le. exact Ht. }
+      rewrite D0 in Hin. destruct Hin.
+    + assert (H : In (s_id s) (job_matches st JPruneDeletedSubs now a)).
+      { eapply subs_become_prunable; eauto. intros d Hdd E.
+        eapply existsb_false_all in X; [|exact Hdd]. cbv beta in X. rewrite E, N.eqb_refl in X. discriminate. }
+      rewrite F in H by reflexivity. destruct H.
+  - intros t dt Ht Hd Hdt.
+    destruct (existsb (fun s => N.eqb (s_topic s) (t_id t) ||
+                                (sub_live s && on_eqb (s_dl_topic s) (Some (t_id t)))) (subs st)) eqn:X.
+    + apply existsb_exists in X. destruct X as (s & Hs & E). exists s. split; [exact Hs|].
+      apply orb_true_iff in E. destruct E as [E|E]; [left; apply N.eqb_eq; exact E|right].
+      apply andb_true_iff in E. destruct E as [E1 E2]. split; [exact E1|].
+      destruct (s_dl_topic s) as [x|]; [|discriminate]. cbn in E2. apply N.eqb_eq in E2. congruence.
+    + exfalso. assert (H : In (t_id t) (job_matches st JPruneDeletedTopics now a)).
+      { eapply topics_become_prunable; eauto.
+        - intros s Hs E. eapply existsb_false_all in X; [|exact Hs]. cbv beta in X.
+          rewrite E, N.eqb_refl in X. discriminate.
+        - intros s Hs Hl E. eapply existsb_false_all in X; [|exact Hs]. cbv beta in X.
+          rewrite Hl, E in X. cbn in X. rewrite N.eqb_refl, orb_true_r in X. discriminate. }
+      rewrite F in H by reflexivity. destruct H.
+Qed.
+
+(* a canonical full round (each delivery job run with an unbounded batch, choosing
+   everything it matches) leaves no dead delivery behind *)
 Definition run_all (st : state) (now : time) (j : job) (a : Z) : state :=
   post st now (Job j a (Z.of_nat (length (job_matches st j now a))) (job_matches st j now a) false now []).
 
+Lemma run_all_dels st now j a :
+  j = JPruneCompletedDeliveries \/ j = JPruneExpiredDeliveries \/ j = JPruneDeletedSubDeliveries ->
+  dels (run_all st now j a) =
+  map (d_null_link (job_matches st j now a)) (del_ids d_id (job_matches st j now a) (dels st)) /\
+  subs (run_all st now j a) = subs st.
+Proof.
+  intros [->|[->| ->]]; unfold run_all, post; cbv beta iota delta [step]; unfold run_job; cbv zeta;
+    cbv beta iota; cbn [done r_state set_dels dels subs]; auto.
+Qed.
+
+Lemma del_dead_null_link st st' now a ch d :
+  subs st' = subs st -> del_dead st' now a (d_null_link ch d) = del_dead st now a d.
+Proof.
+  intros ES. unfold del_dead, get_sub. rewrite ES.
+  destruct (d_null_link_fields ch d) as (A & B & _). rewrite A, B, d_null_link_sub. reflexivity.
+Qed.
+
 Theorem full_round_reclaims_deliveries st now a :
-  0 <= a -> ids_unique st ->
+  ids_unique st ->
   let st1 := run_all st now JPruneCompletedDeliveries a in
   let st2 := run_all st1 now JPruneExpiredDeliveries a in
   let st3 := run_all st2 now JPruneDeletedSubDeliveries a in
   dead_dels st3 now a = [].
-Admitted.
+Proof.
+  intros U st1 st2 st3.
+  (* each of the three rounds removes every row its predicate matches, later rounds keep
+     that, and the predicates together are [del_dead] *)
+  assert (R : forall s j, j = JPruneCompletedDeliveries \/ j = JPruneExpiredDeliveries \/ j = JPruneDeletedSubDeliveries ->
+              forall d', In d' (dels (run_all s now j a)) ->
+              exists d, In d (dels s) /\ d' = d_null_link (job_matches s j now a) d /\
+                        ~ In (d_id d) (job_matches s j now a)).
+  { intros s j Hj d' Hd'. destruct (run_all_dels s now j a Hj) as [E _]. rewrite E in Hd'.
+    apply in_map_iff in Hd'. destruct Hd' as (d & <- & Hd). apply in_del_ids in Hd. destruct Hd as [Hd Hn].
+    exists d. auto. }
+  unfold dead_dels. apply filter_all_false. intros d3 H3.
+  destruct (R st2 JPruneDeletedSubDeliveries (or_intror (or_intror eq_refl)) d3 H3) as (d2 & H2 & E3 & N3).
+  destruct (R st1 JPruneExpiredDeliveries (or_intror (or_introl eq_refl)) d2 H2) as (d1 & H1 & E2 & N2).
+  destruct (R st JPruneCompletedDeliveries (or_introl eq_refl) d1 H1) as (d0 & H0 & E1 & N1).
+  destruct (run_all_dels st now JPruneCompletedDeliveries a (or_introl eq_refl)) as [_ S1].
+  destruct (run_all_dels st1 now JPruneExpiredDeliveries a (or_intror (or_introl eq_refl))) as [_ S2].
+  destruct (run_all_dels st2 now JPruneDeletedSubDeliveries a (or_intror (or_intror eq_refl))) as [_ S3].
+  fold st1 in S1. fold st2 in S2. fold st3 in S3.
+  subst d3. rewrite (del_dead_null_link st2 st3 now a _ d2 S3).
+  unfold del_dead. apply orb_false_iff. split; [apply orb_false_iff; split|].
+  - (* not completed-old: else the first job matched d0 *)
+    subst d2 d1. destruct (d_null_link_fields (job_matches st1 JPruneExpiredDeliveries now a)
+                             (d_null_link (job_matches st JPruneCompletedDeliveries now a) d0)) as (A & _).
+    destruct (d_null_link_fields (job_matches st JPruneCompletedDeliveries now a) d0) as (A' & _).
+    rewrite A, A'.
+    destruct (match d_completed d0 with Some c => c <=? now - a | None => false end) eqn:X; [|reflexivity].
+    exfalso. apply N1. cbn [job_matches]. apply in_map. apply filter_In. auto.
+  - subst d2. destruct (d_null_link_fields (job_matches st1 JPruneExpiredDeliveries now a) d1) as (_ & B & _).
+    rewrite B. destruct (d_expires d1 <? now) eqn:X; [|reflexivity].
+    exfalso. apply N2. cbn [job_matches]. apply in_map. apply filter_In. auto.
+  - destruct (match get_sub st2 (d_sub d2) with
+              | Some s => match s_deleted s with Some t => t <=? now - a | None => false end
+              | None => false end) eqn:X; [|reflexivity].
+    exfalso. apply N3. cbn [job_matches]. apply in_map. apply filter_In. auto.
+Qed.
+
+(* ---- non-vacuity: a concrete reachable state on which the hypotheses hold and a prune
+   job really removes a row (a completed delivery that is the ordering predecessor of an
+   outstanding one, so the successor's link is nulled) ---- *)
+Module Example15.
+  Definition tn : str := "projects/p/topics/t".
+  Definition sn : str := "projects/p/subscriptions/s".
+  Definition q0 := mkSubreq sn tn 0 0 true [] "" false None None None.
+  Definition h0 : hist :=
+    [ (100, CreateTopic tn [] false 1%N);
+      (200, CreateSub q0 2%N 200);
+      (300, Publish tn [mkPubmsg "1" true [] "k" 1 10%N 300; mkPubmsg "2" true [] "k" 1 11%N 301]
+                    [(10%N, 2%N, 20%N); (11%N, 2%N, 21%N)]);
+      (400, Pull sn 1 [20%N] [] 400 [] []);
+      (500, Ack sn (Some [20%N]) 500) ].
+  Definition st0 := run empty_state h0.
+  Definition j0 := Job JPruneCompletedDeliveries 0 5 [20%N] false 600 [].
+
+  Example reachable0 : reachable st0.
+  Proof. apply (reachable_by st0 h0); [vm_compute; reflexivity|reflexivity]. Qed.
+
+  Example hypotheses_hold :
+    ids_unique st0 /\ links_same_sub st0 /\ legal st0 600 j0 /\
+    length (dels (post st0 600 j0)) = 1%nat /\ length (dels st0) = 2%nat /\
+    map d_not_before (dels st0) = [None; Some 20%N] /\ map d_not_before (dels (post st0 600 j0)) = [None] /\
+    length (v_dels (view_of st0 600)) = 1%nat.
+  Proof.
+    split; [apply reachable_ok; exact reachable0|].
+    split; [apply reachable_links_same_sub; exact reachable0|].
+    repeat split; vm_compute; reflexivity.
+  Qed.
+
+  Example invisible_here : view_of (post st0 600 j0) 600 = view_of st0 600.
+  Proof.
+    destruct hypotheses_hold as (U & K & L & _).
+    apply prune_invisible; [reflexivity|lia|exact U|exact K|exact L].
+  Qed.
+End Example15.
+
+(* ---- the executable monitor is quiet on every model step ----
+   [View.prune_step_visible] is what the correspondence check evaluates on the
+   implementation's observed (pre, op, post): on the model's own post-state it never fires *)
+Theorem monitor_quiet_on_model st now hi j mn mx chosen failed w fr resp skip :
+  0 <= mn -> ids_unique st -> links_same_sub st ->
+  legal st now (Job j mn mx chosen failed w fr) ->
+  prune_step_visible st (Check.mkObs now hi (Job j mn mx chosen failed w fr) resp
+                                     (post st now (Job j mn mx chosen failed w fr)) skip) = false.
+Proof.
+  intros Hmn U K L. unfold prune_step_visible. cbn [Check.o_op Check.o_post Check.o_lo Check.o_skip].
+  destruct failed; [reflexivity|].
+  destruct (is_prune j) eqn:Hj; [|reflexivity]. cbn [andb].
+  rewrite (prune_invisible st now j mn mx chosen w fr Hj Hmn U K L), view_eqb_refl.
+  destruct skip; reflexivity.
+Qed.
